@@ -108,7 +108,12 @@ func (m *FloodSub) Execute(ctx context.Context) error {
 			// if !s.initiator {
 			if initSet == nil {
 				initSet = make([]*SubscriptionOpts, 0, len(m.channels))
-				for chid := range m.channels {
+				for chid, chm := range m.channels {
+					// skip channels whose last subscription was released
+					// already (they are swept below)
+					if len(chm) == 0 {
+						continue
+					}
 					initSet = append(initSet, &SubscriptionOpts{
 						ChannelId: chid,
 						Subscribe: true,
